@@ -111,6 +111,8 @@ type Material struct {
 	CertPEM, KeyPEM, CAPEM []byte
 	CertDER                []byte
 	CASubject              []byte
+	// a renewal of the serving certificate that KEEPS the key (new serial, same subject, same CA)
+	RenewedCertPEM, RenewedCertDER []byte
 }
 
 // NewMaterial generates a CA and a serving certificate signed by it.
@@ -130,6 +132,12 @@ func NewMaterial(cn string) Material {
 	m.KeyPEM = pem.EncodeToMemory(&pem.Block{Type: "EC PRIVATE KEY", Bytes: keyDER})
 	m.CAPEM = pem.EncodeToMemory(&pem.Block{Type: "CERTIFICATE", Bytes: caDER})
 	if _, err := tls.X509KeyPair(m.CertPEM, m.KeyPEM); err != nil {
+		panic(err)
+	}
+	tpl.SerialNumber = big.NewInt(3)
+	m.RenewedCertDER, _ = x509.CreateCertificate(rand.Reader, tpl, caCert, &key.PublicKey, caKey)
+	m.RenewedCertPEM = pem.EncodeToMemory(&pem.Block{Type: "CERTIFICATE", Bytes: m.RenewedCertDER})
+	if _, err := tls.X509KeyPair(m.RenewedCertPEM, m.KeyPEM); err != nil {
 		panic(err)
 	}
 	return m
